@@ -9,26 +9,49 @@ namespace PauLie
 namespace C02
 open Closure Morph MorphG C11L
 
--- every step lemma takes the frame hypothesis `hE`, whether or not the step contains a `lit`
-set_option linter.unusedSectionVars false
+/-- a state predicate that every guarded primitive (and every lifted read) preserves on every exit -/
+structure PrimPres (P : MG → Prop) : Prop where
+  lift : ∀ {α} (x : MFM α) [Keeps x], Pres P (monadLift x : GM α)
+  litG : ∀ l v, Pres P (litG l v)
+  appendG : ∀ v lt, Pres P (appendG v lt)
+  removeG : ∀ v, Pres P (removeG v)
+  replaceG : ∀ v w, Pres P (replaceG v w)
+  appendDelayedG : ∀ v, Pres P (appendDelayedG v)
+  checkDepG : ∀ x, Pres P (checkDepG x)
+  initLegsG : ∀ l, Pres P (initLegsG l)
+  dependIncludedG : ∀ l, Pres P (dependIncludedG l)
+  uncertifiedG : Pres P uncertifiedG
+
+/-- the invariant of property C02 is such a predicate -/
+theorem primPres_inv (c : Ctx) (hE : FrameLen c) : PrimPres (Inv c) where
+  lift x := pres_lift c x
+  litG := pres_litG c hE
+  appendG := pres_appendG c
+  removeG := pres_removeG c
+  replaceG := pres_replaceG c
+  appendDelayedG := pres_appendDelayedG c
+  checkDepG := pres_checkDepG c
+  initLegsG := pres_initLegsG c
+  dependIncludedG := pres_dependIncludedG c
+  uncertifiedG := pres_uncertifiedG c
 
 section
-variable (c : Ctx) (hE : FrameLen c)
-include hE
+variable {P : MG → Prop} (hP : PrimPres P)
+include hP
 
 macro "pres1" : tactic => `(tactic| first
   | with_reducible exact pres_pure _
   | with_reducible exact pres_throw _
-  | with_reducible exact pres_lift _ _
-  | with_reducible exact pres_litG _ ‹_› _ _
-  | with_reducible exact pres_appendG _ _ _
-  | with_reducible exact pres_removeG _ _
-  | with_reducible exact pres_replaceG _ _ _
-  | with_reducible exact pres_appendDelayedG _ _
-  | with_reducible exact pres_checkDepG _ _
-  | with_reducible exact pres_initLegsG _ _
-  | with_reducible exact pres_dependIncludedG _ _
-  | with_reducible exact pres_uncertifiedG _
+  | with_reducible exact PrimPres.lift ‹_› _
+  | with_reducible exact PrimPres.litG ‹_› _ _
+  | with_reducible exact PrimPres.appendG ‹_› _ _
+  | with_reducible exact PrimPres.removeG ‹_› _
+  | with_reducible exact PrimPres.replaceG ‹_› _ _
+  | with_reducible exact PrimPres.appendDelayedG ‹_› _
+  | with_reducible exact PrimPres.checkDepG ‹_› _
+  | with_reducible exact PrimPres.initLegsG ‹_› _
+  | with_reducible exact PrimPres.dependIncludedG ‹_› _
+  | with_reducible exact PrimPres.uncertifiedG ‹_›
   | with_reducible apply pres_ite
   | with_reducible apply pres_forIn
   | with_reducible apply pres_foldlM
@@ -37,119 +60,119 @@ macro "pres1" : tactic => `(tactic| first
   | split
   | dsimp only)
 
-theorem pres_appendToCenter (l : PS) : Pres (Inv c) (appendToCenterG l) := by
+theorem pres_appendToCenter (l : PS) : Pres P (appendToCenterG l) := by
   unfold appendToCenterG
   repeat' pres1
 
-theorem pres_twoCenter (l : PS) : Pres (Inv c) (appendToTwoCenterG l) := by
+theorem pres_twoCenter (l : PS) : Pres P (appendToTwoCenterG l) := by
   unfold appendToTwoCenterG
   repeat' pres1
 
-theorem pres_truncate : Pres (Inv c) truncateLongLegG := by
+theorem pres_truncate : Pres P truncateLongLegG := by
   unfold truncateLongLegG
   repeat' pres1
 
-theorem pres_litSeq (l : PS) (vs : List PS) : Pres (Inv c) (litSeqG l vs) := by
+theorem pres_litSeq (l : PS) (vs : List PS) : Pres P (litSeqG l vs) := by
   unfold litSeqG
-  exact pres_foldlM _ (fun a b => pres_litG c hE a b) vs l
+  exact pres_foldlM _ (fun a b => hP.litG a b) vs l
 
 macro "pres_steps" : tactic => `(tactic| repeat' (first
-  | with_reducible exact pres_litSeq _ ‹_› _ _
-  | with_reducible exact pres_twoCenter _ ‹_› _
-  | with_reducible exact pres_appendToCenter _ ‹_› _
-  | with_reducible exact pres_truncate _ ‹_›
+  | with_reducible exact pres_litSeq ‹_› _ _
+  | with_reducible exact pres_twoCenter ‹_› _
+  | with_reducible exact pres_appendToCenter ‹_› _
+  | with_reducible exact pres_truncate ‹_›
   | pres1))
 
-theorem pres_stepI : Pres (Inv c) appendThreeGraphG := by
+theorem pres_stepI : Pres P appendThreeGraphG := by
   unfold appendThreeGraphG
   pres_steps
 
-theorem pres_stepII : Pres (Inv c) appendOneLegsInDifferentStateG := by
+theorem pres_stepII : Pres P appendOneLegsInDifferentStateG := by
   unfold appendOneLegsInDifferentStateG
   pres_steps
 
-theorem pres_fast : Pres (Inv c) appendFastG := by
+theorem pres_fast : Pres P appendFastG := by
   unfold appendFastG
   pres_steps
 
-theorem pres_litCenter : Pres (Inv c) litCenterG := by
+theorem pres_litCenter : Pres P litCenterG := by
   unfold litCenterG
   pres_steps
 
-macro "pl" : tactic => `(tactic| (apply pres_bind (pres_lift _ _); intro _))
+macro "pl" : tactic => `(tactic| (apply pres_bind; (· exact PrimPres.lift ‹_› _); intro _))
 
 /-- Step III; the join points of the `do` block are extracted and proved once -/
-theorem pres_stepIII : Pres (Inv c) litOnlyLongLegG := by
+theorem pres_stepIII : Pres P litOnlyLongLegG := by
   unfold litOnlyLongLegG
   pl; pl; pl; pl; pl
   extract_lets j j'
-  have hj : ∀ r l, Pres (Inv c) (j r l) := by
+  have hj : ∀ r l, Pres P (j r l) := by
     intro r l
     simp -zeta only [j]
     pl; pl
     extract_lets k
-    have hk : ∀ r t, Pres (Inv c) (k r t) := by
+    have hk : ∀ r t, Pres P (k r t) := by
       intro r t
       simp -zeta only [k]
       apply pres_ite
       · pl; exact pres_pure _
       · pl
         extract_lets p4 p3
-        have h4 : ∀ r l, Pres (Inv c) (p4 r l) := by
+        have h4 : ∀ r l, Pres P (p4 r l) := by
           intro r l
           simp -zeta only [p4]
           pres_steps
-        have h3 : ∀ r l, Pres (Inv c) (p3 r l) := by
+        have h3 : ∀ r l, Pres P (p3 r l) := by
           intro r l
           simp -zeta only [p3]
           pl
           extract_lets li q5
-          have h5 : ∀ r, Pres (Inv c) (q5 r) := by
+          have h5 : ∀ r, Pres P (q5 r) := by
             intro r
             simp -zeta only [q5]
             repeat' (first | with_reducible exact h4 () _ | pres1)
           clear_value q5
           repeat' (first | with_reducible exact h4 () _ | with_reducible exact h5 _ | pres1)
         clear_value p4 p3
-        repeat' (first | with_reducible exact h3 () _ | with_reducible exact pres_litSeq _ ‹_› _ _ | pres1)
+        repeat' (first | with_reducible exact h3 () _ | with_reducible exact pres_litSeq ‹_› _ _ | pres1)
     clear_value k
     repeat' (first | with_reducible exact hk () _ | pres1)
-  have hj' : ∀ r l, Pres (Inv c) (j' r l) := by
+  have hj' : ∀ r l, Pres P (j' r l) := by
     intro r l
     simp only [j']
-    apply pres_bind (pres_litG c hE _ _); intro _
+    apply pres_bind (hP.litG _ _); intro _
     exact hj () _
   clear_value j j'
   repeat' (first | with_reducible exact hj () _ | with_reducible exact hj' () _ | pres1)
 
-theorem pres_reduceRound (ll : List PS) (n : Nat) (l : PS) : Pres (Inv c) (reduceRoundG ll n l) := by
+theorem pres_reduceRound (ll : List PS) (n : Nat) (l : PS) : Pres P (reduceRoundG ll n l) := by
   unfold reduceRoundG
   pres_steps
 
 theorem pres_reduceLoop (ll : List PS) (n : Nat) : ∀ (fuel : Nat) (l : PS),
-    Pres (Inv c) (reduceLoopG ll n fuel l)
+    Pres P (reduceLoopG ll n fuel l)
   | 0, l => by unfold reduceLoopG; exact pres_throw _
   | fuel + 1, l => by
     unfold reduceLoopG
-    apply pres_bind (pres_reduceRound c hE ll n l)
+    apply pres_bind (pres_reduceRound hP ll n l)
     intro r
     cases r with
     | none => exact pres_pure _
     | some l' => exact pres_reduceLoop ll n fuel l'
 
-theorem pres_stepIV : Pres (Inv c) reduceLongLegMoreThanOneLitsG := by
+theorem pres_stepIV : Pres P reduceLongLegMoreThanOneLitsG := by
   unfold reduceLongLegMoreThanOneLitsG
-  repeat' (first | with_reducible exact pres_reduceLoop _ ‹_› _ _ _ _ | pres1)
+  repeat' (first | with_reducible exact pres_reduceLoop ‹_› _ _ _ _ | pres1)
 
-theorem pres_stepV : Pres (Inv c) appendLongLegFirstAndCenterLitG := by
+theorem pres_stepV : Pres P appendLongLegFirstAndCenterLitG := by
   unfold appendLongLegFirstAndCenterLitG
   pres_steps
 
-theorem pres_stepVI : Pres (Inv c) appendLongLegOnlyLastLitG := by
+theorem pres_stepVI : Pres P appendLongLegOnlyLastLitG := by
   unfold appendLongLegOnlyLastLitG
   pres_steps
 
-theorem pres_stepVII : Pres (Inv c) appendLongLegLastAndFirstLitG := by
+theorem pres_stepVII : Pres P appendLongLegLastAndFirstLitG := by
   unfold appendLongLegLastAndFirstLitG
   pres_steps
 
@@ -165,18 +188,18 @@ def pipelineBodyG : GM Unit := do
   appendLongLegOnlyLastLitG
   appendLongLegLastAndFirstLitG
 
-theorem pres_pipelineBody : Pres (Inv c) pipelineBodyG := by
+theorem pres_pipelineBody : Pres P pipelineBodyG := by
   unfold pipelineBodyG
   repeat' (first
-    | with_reducible exact pres_stepI _ ‹_›
-    | with_reducible exact pres_stepII _ ‹_›
-    | with_reducible exact pres_fast _ ‹_›
-    | with_reducible exact pres_stepIII _ ‹_›
-    | with_reducible exact pres_litCenter _ ‹_›
-    | with_reducible exact pres_stepIV _ ‹_›
-    | with_reducible exact pres_stepV _ ‹_›
-    | with_reducible exact pres_stepVI _ ‹_›
-    | with_reducible exact pres_stepVII _ ‹_›
+    | with_reducible exact pres_stepI ‹_›
+    | with_reducible exact pres_stepII ‹_›
+    | with_reducible exact pres_fast ‹_›
+    | with_reducible exact pres_stepIII ‹_›
+    | with_reducible exact pres_litCenter ‹_›
+    | with_reducible exact pres_stepIV ‹_›
+    | with_reducible exact pres_stepV ‹_›
+    | with_reducible exact pres_stepVI ‹_›
+    | with_reducible exact pres_stepVII ‹_›
     | pres1)
 
 end
